@@ -64,11 +64,18 @@ def NValidFrom : Node → List NEv → Prop
   | _, [] => True
   | n, e :: es => NEvOk n e ∧ NValidFrom (nstep n e) es
 
-/-- the node is quiescent: there is no active fetcher, or the active fetcher has nothing pending
-(no queued loop, told `no_more_shares`, no outstanding block request) -/
+/-- the node is quiescent: there is no active fetcher, or `_active_segment` is a stopped fetcher
+(possible only in the unfixed code), or the active fetcher has nothing pending (no queued loop, told
+`no_more_shares`, no outstanding block request) -/
 def NQuiescent (n : Node) : Prop :=
   match n.active with
   | none => True
-  | some a => a.f.pending = 0 ∧ a.f.noMore = true ∧ a.f.outstanding = []
+  | some a => a.f.running = false ∨ (a.f.pending = 0 ∧ a.f.noMore = true ∧ a.f.outstanding = [])
+
+/-- a fresh node (code with the fix) / a fresh node of the unchanged tree -/
+def initNode (k numSegs : Nat) (badSegs : List Nat) : Node := { k := k, numSegs := numSegs, badSegs := badSegs }
+
+def unfixedNode (k numSegs : Nat) (badSegs : List Nat) : Node :=
+  { fixed := false, k := k, numSegs := numSegs, badSegs := badSegs }
 
 end Tahoe.Fetch
